@@ -445,7 +445,17 @@ fn declare(
 			}
 			let linkage = LLVMLinkage::LLVMPrivateLinkage;
 			unsafe { LLVMSetLinkage(global, linkage) };
-			let constant = value.generate(llvm)?;
+			let constant = match value.generate(llvm)
+			{
+				Ok(constant) => constant,
+				Err(error) =>
+				{
+					// Do not leave a constant without a value behind.
+					llvm.global_variables.remove(&name.resolution_id);
+					unsafe { LLVMDeleteGlobal(global) };
+					return Err(error);
+				}
+			};
 			unsafe { LLVMSetInitializer(global, constant) };
 			let is_const = unsafe { LLVMIsConstant(constant) };
 			if is_const > 0
@@ -1510,7 +1520,11 @@ impl Reference
 		}
 		else
 		{
-			unreachable!()
+			// The declaration of this variable failed to resolve.
+			return Err(anyhow::anyhow!(
+				"missing declaration of '{}'",
+				self.base.name
+			));
 		};
 
 		if self.steps.is_empty()
